@@ -311,7 +311,7 @@ class Oracle:
         sim = self.sim
         for mj in sim.jobs:
             self.observe_job(mj)
-        if self.on('c01'):
+        if self.on('c01') or self.on('c05'):
             self.check_callbacks()
         if self.on('c03'):
             self.check_accept_protocol()
@@ -325,7 +325,7 @@ class Oracle:
         if self.on('c11'):
             self.check_limiter(op)
         if self.on('c05') or self.on('c06'):
-            if op[0] == 'scan' and res is None:
+            if op[0] in ('scan', 'scanrace') and res is None:
                 self.check_scan()
             else:
                 self.check_no_stray_signals(op)
@@ -538,6 +538,10 @@ class Oracle:
             hard, soft = self.hard_limit(mj), self.soft_limit(mj)
             resolved_before = mj.first is not None and \
                 mj.first_op < len(sim.log)
+            if mj.idx in getattr(sim, 'scan_resolved', ()):
+                # its result was consumed while this scan was running: either
+                # outcome is legitimate, depending on who came first
+                continue
             expired_hard = bool(hard and p.ack_delivered and
                                 now >= p.ack_time + hard)
             expired_soft = bool(soft and p.ack_delivered and
@@ -571,7 +575,12 @@ class Oracle:
                         and in_cache:
                     entitled_soft.add((p.owner, mj.idx))
         # signals nobody is entitled to
+        raced_owners = set(
+            sim.jobs[i].parts[None].owner
+            for i in getattr(sim, 'scan_resolved', ()) if sim.jobs[i].kind == 'apply')
         for pid, sigs in by_pid.items():
+            if pid in raced_owners:
+                continue
             for s in sigs:
                 if s in (signal.SIGTERM, signal.SIGKILL) and self.on('c05'):
                     if pid not in entitled_term:
